@@ -39,3 +39,56 @@ Theorem C16_component : forall adj, (forall i j, adj i j = adj j i) -> (forall i
               forall c, In c L <-> exists a, coloured_ok adj a /\ Permutation (map fst a) comp /\ c = canon a comp.
 Proof. exact component_colourings_spec. Qed.
 Print Assumptions C16_component.
+
+(* ------------------------------------------------------------------ the whole list *)
+From RV Require Import Proofs.C16Comp Proofs.C16Global Proofs.C16Final Proofs.C16Contains Proofs.C02Main.
+
+(* the groups: duplicate-free, closed under crossing, pairwise disjoint, covering every stem that crosses another *)
+Theorem C16_groups : forall rs,
+    comps_inv (adj_all rs) (length rs) (length rs) (components (adj_all rs) (length rs)).
+Proof. intros rs. exact (components_spec (adj_all rs) (length rs) (adj_all_sym rs) (adj_all_lt rs)). Qed.
+Print Assumptions C16_groups.
+
+(* the level assignments enumerated (free combination over the groups) are exactly the globally greedy-stable ones, and
+   the enumeration never fails *)
+Theorem C16_all_orders : forall rs, exists ords, all_orders rs = Ok ords /\
+    forall ord, In ord ords <-> length ord = length rs /\ stableP (adj_all rs) (length rs) ord.
+Proof. exact all_orders_spec. Qed.
+Print Assumptions C16_all_orders.
+
+(* the list equals the independent characterisation, as a value (same strings, same order, same error if any) *)
+Theorem C16_is_stable_set : forall b,
+    has_conflict (adj_all (regions b)) (length (regions b)) = true -> all_db b = stable_db b.
+Proof. exact all_db_is_stable_db. Qed.
+Print Assumptions C16_is_stable_set.
+
+Theorem C16_members : forall b L, has_conflict (adj_all (regions b)) (length (regions b)) = true -> all_db b = Ok L ->
+    forall s, In s L <-> exists ord, length ord = length (regions b) /\ stableP (adj_all (regions b)) (length (regions b)) ord /\
+                                   make_db b (regions b) ord = Ok s.
+Proof. exact all_db_members. Qed.
+Print Assumptions C16_members.
+
+Theorem C16_no_repetition : forall b L, all_db b = Ok L -> NoDup L.
+Proof. exact all_db_nodup. Qed.
+Print Assumptions C16_no_repetition.
+
+Theorem C16_contains_fcfs : forall b L s,
+    has_conflict (adj_all (regions b)) (length (regions b)) = true -> all_db b = Ok L -> fcfs b = Ok s -> In s L.
+Proof. exact fcfs_in_all_db. Qed.
+Print Assumptions C16_contains_fcfs.
+
+Theorem C16_contains_optimal : forall b L x s,
+    has_conflict (adj_all (regions b)) (length (regions b)) = true -> all_db b = Ok L ->
+    solver_contract (regions b) x -> (forall r, In r (regions b) -> (0 < rlen r)%Z) ->
+    make_db b (regions b) (readback (regions b) x) = Ok s -> In s L.
+Proof. exact optimal_in_all_db. Qed.
+Print Assumptions C16_contains_optimal.
+
+Theorem C16_pseudoknot_free_single : forall b, has_conflict (adj_all (regions b)) (length (regions b)) = false ->
+    all_db b = match fcfs b with Ok s => Ok [s] | Raise e => Raise e end.
+Proof. exact no_conflict_single. Qed.
+Print Assumptions C16_pseudoknot_free_single.
+
+Theorem C16_pseudoknot_free_round : forall rs, has_conflict (adj_all rs) (length rs) = false -> fcfs_orders rs = Ok (repeat 0 (length rs)).
+Proof. exact no_conflict_fcfs_zero. Qed.
+Print Assumptions C16_pseudoknot_free_round.
